@@ -81,6 +81,26 @@ func leaves(tk tokens) []tree {
 		add(&net.DNSError{Err: v.errs, Name: tk.host, Server: v.srv, IsNotFound: v.nf, IsTimeout: v.tmo, IsTemporary: v.temp},
 			fmt.Sprintf("DNSError(srv=%v,nf=%v,tmo=%v)", v.srv != "", v.nf, v.tmo), sec...)
 	}
+	// descriptions as the resolver writes them when its transport fails (net
+	// copies the text of the underlying error, addresses and all), under every
+	// combination of the three flags
+	for fl := 0; fl < 8; fl++ {
+		for di, desc := range []string{
+			"read udp " + tk.v4b + ":4242->" + tk.v4 + ":53: i/o timeout",
+			"dial udp " + tk.v4 + ":53: connect: network is unreachable",
+			"socks connect udp " + tk.v4b + ":1080->" + tk.v4 + ":53: host unreachable",
+			"write udp [" + tk.v6b + "]:5353->[" + tk.v6 + "]:53: write: operation not permitted",
+		} {
+			sec := []secret{{tk.host, "DNSError.Name"}, {tk.v4, "DNSError.Err(server address)"}}
+			if di == 3 {
+				sec = []secret{{tk.host, "DNSError.Name"}, {tk.v6, "DNSError.Err(server address)"}, {tk.v6b, "DNSError.Err(source address)"}}
+			} else if di != 1 {
+				sec = append(sec, secret{tk.v4b, "DNSError.Err(source address)"})
+			}
+			add(&net.DNSError{Err: desc, Name: tk.host, Server: tk.v4 + ":53", IsNotFound: fl&1 != 0, IsTimeout: fl&2 != 0, IsTemporary: fl&4 != 0},
+				fmt.Sprintf("DNSError(transport-text-%d,flags=%d)", di, fl), sec...)
+		}
+	}
 	add(net.InvalidAddrError("invalid address "+tk.v4), "InvalidAddrError", secret{tk.v4, "InvalidAddrError"})
 	iae := net.InvalidAddrError("bad " + tk.host)
 	add(&iae, "*InvalidAddrError", secret{tk.host, "InvalidAddrError"})
@@ -212,7 +232,7 @@ func TestCheck(t *testing.T) {
 	ws := wrappers()
 
 	// (1) exhaustive trees
-	for li := 0; li < 64; li++ {
+	for li := 0; li < 96; li++ {
 		li := li
 		r.Case(fmt.Sprintf("trees/leaf%02d", li), func(c *mon.Case) {
 			rng := mon.NewRand(r.Sub("tok", li))
@@ -367,6 +387,14 @@ func realErrors(c *mon.Case, r *mon.Run) {
 	_, err = res.LookupHost(ctx, tk.host)
 	cancel()
 	add("Resolver.LookupHost dial-failure", err, secret{tk.host, "DNSError.Name"}, secret{tk.v4b, "resolver transport: server address"})
+
+	res2 := &net.Resolver{PreferGo: true, Dial: func(ctx context.Context, network, address string) (net.Conn, error) {
+		return nil, fmt.Errorf("socks connect udp %s:1080->%s:53: host unreachable", "198.51.100.7", tk.v4b)
+	}}
+	ctx2, cancel2 := context.WithTimeout(context.Background(), 5*time.Second)
+	_, err = res2.LookupHost(ctx2, tk.host)
+	cancel2()
+	add("Resolver.LookupHost dial-hook-plain-error", err, secret{tk.host, "DNSError.Name"}, secret{tk.v4b, "resolver transport: server address"}, secret{"198.51.100.7", "resolver transport: source address"})
 
 	for _, e := range errs {
 		t := tree{Err: e.err, Shape: "real:" + e.origin, Parent: "real"}
